@@ -490,3 +490,44 @@ impl fmt::Display for AccessError {
         fmt::Display::fmt("already destroyed", f)
     }
 }
+
+#[cfg(feature = "verif-hooks")]
+impl Set {
+    pub(crate) fn verif_dump(&self) -> String {
+        let active = match self.active {
+            Some(a) => a.to_string(),
+            None => "-".to_string(),
+        };
+        let mut out = format!("active={} sc={}", active, self.seq_cst_causality.verif_dump());
+        for th in &self.threads {
+            let st = match th.state {
+                State::Runnable { unparked: false } => "R",
+                State::Runnable { unparked: true } => "U",
+                State::Blocked(..) => "B",
+                State::Yield => "Y",
+                State::Terminated => "T",
+            };
+            let ly = match th.last_yield {
+                Some(v) => v.to_string(),
+                None => "-".to_string(),
+            };
+            let op = match th.operation.as_ref() {
+                Some(op) => op.verif_dump(),
+                None => "-".to_string(),
+            };
+            out.push_str(&format!(
+                " | t{} st={} c={} r={} d={} ly={} yc={} op={} crit={}",
+                th.id.id,
+                st,
+                th.causality.verif_dump(),
+                th.released.verif_dump(),
+                th.dpor_vv.verif_dump(),
+                ly,
+                th.yield_count,
+                op,
+                th.critical as u8
+            ));
+        }
+        out
+    }
+}
